@@ -1970,6 +1970,33 @@ func runC03Proc(c *fw.Case) {
 	if c.Bool("cfg.decoy") {
 		entries = append(entries, fmt.Sprintf(`%q: {"skip-verify": true}`, filepath.Join(c.Dir(), "elsewhere")), `"http://198.51.100.7/*": {"skip-verify": true, "uncompressed": true}`)
 	}
+	// near misses: entries that switch verification off for locations that are not this store - a prefix of it, a
+	// sibling with a common prefix, its parent, a sub-path, another port, patterns that do not match it
+	if c.ChanceAdded(1, 2, "cfg.nearmiss") {
+		var cands []string
+		if strings.HasPrefix(location, "http") {
+			base := strings.TrimSuffix(location, "/")
+			cands = []string{base + "/sub", base + "/sub/", base + "0/", strings.Replace(base, "127.0.0.1", "127.0.0.2", 1) + "/", base + "/*", "https" + strings.TrimPrefix(base, "http") + "/", base[:len(base)-1] + "?x/"}
+		} else {
+			cands = []string{location + "2", strings.TrimSuffix(location, ".d"), filepath.Dir(location), location + "/sub", filepath.Join(filepath.Dir(location), "*", "store.d"), location + "/*", filepath.Join(filepath.Dir(location), "stor?.x")}
+		}
+		for i := 0; i < 3; i++ {
+			p := cands[c.Draw(len(cands), "cfg.nearmiss.pick")]
+			if locationMatchRef(p, location) {
+				continue // would legitimately apply
+			}
+			e := fmt.Sprintf(`%q: {"skip-verify": true, "uncompressed": %v}`, p, unc)
+			dup := false
+			for _, x := range entries {
+				if strings.HasPrefix(x, strings.SplitN(e, ":", 2)[0]+":") || x == e {
+					dup = true
+				}
+			}
+			if !dup && !strings.Contains(strings.Join(entries, ""), fmt.Sprintf("%q:", p)) {
+				entries = append(entries, e)
+			}
+		}
+	}
 	os.WriteFile(cfgFile, []byte(`{"store-options": {`+strings.Join(entries, ", ")+`}}`), 0644)
 	consumer := c.Draw(3, "consumer")
 	out := filepath.Join(c.Dir(), "out")
@@ -2678,4 +2705,21 @@ func runC02Proc(c *fw.Case) {
 		}
 	}
 	c.Outcome("ok")
+}
+
+// locationMatchRef is the documented rule for which config entry applies to a store location: URLs are compared as
+// strings after dropping one trailing slash on both sides, paths after making both absolute; the entry is a glob in
+// the sense of filepath.Match (a star does not cross a slash).
+func locationMatchRef(pattern, loc string) bool {
+	if i := strings.Index(loc, "://"); i > 1 {
+		m, _ := filepath.Match(strings.TrimSuffix(pattern, "/"), strings.TrimSuffix(loc, "/"))
+		return m
+	}
+	p1, err1 := filepath.Abs(pattern)
+	p2, err2 := filepath.Abs(loc)
+	if err1 != nil || err2 != nil {
+		return false
+	}
+	m, _ := filepath.Match(p1, p2)
+	return m
 }
